@@ -449,6 +449,11 @@ impl<'a> Gen<'a> {
         let end = match self.r.below(4) { 0 => "-".to_string(), _ => (s_num + 1 + self.r.below(20)).to_string() };
         let ad = match self.r.below(8) { 0 => lp.clone(), 1 | 2 => "uom".to_string(), 3 => "uusd".to_string(), _ => BASE_DENOMS[self.r.below(6) as usize].to_string() };
         let aa = match self.r.below(5) { 0 => 999, 1 => 1000, _ => 1000 + self.r.below(10_000_000) as u128 };
+        // long farms with a small budget: the emission rate's rounding remainder exceeds one epoch's emission
+        let (end, aa) = if self.r.chance(1, 6) {
+            let d = 32 + self.r.below(40);
+            ((s_num + d).to_string(), 1000 + self.r.below(d * d - 1000) as u128)
+        } else { (end, aa) };
         // farms are often created by the same account (several active farms sharing an owner)
         let sender = if self.r.chance(1, 2) { "u1" } else { pick_user(self.r) };
         let have = self.run.h.w.balance(sender, &ad);
@@ -570,6 +575,25 @@ impl<'a> Gen<'a> {
         let adv = (2 + self.r.below(3)) * DAY * 1_000_000_000;
         self.emit(format!("advance {}", adv));
         self.emit(format!("tx {} 0 fm claim -", ub));
+    }
+
+    /// directed scenario for C11: a long farm with a small budget (the remainder of budget / duration is at
+    /// least one epoch's emission) is expanded by a few epochs' worth: the end moves by exactly amount / rate
+    pub fn op_scenario_expand_long_farm(&mut self) {
+        let Some(lp) = self.some_lp() else { return self.op_provide() };
+        let cur = self.cur_epoch();
+        let d = 34 + self.r.below(40) as u128;
+        let rate = (1000 / d + 1) + self.r.below(3) as u128;          // rate * d >= 1000
+        if rate >= d { return self.op_create_farm(); }
+        let rem = rate + (self.r.below((d - rate) as u64) as u128);      // rate <= rem < d
+        let aa = rate * d + rem;
+        let tag = self.r.below(10_000);
+        let asset = coin(aa, "uusdc");
+        let funds = self.farm_fee_funds(&asset);
+        self.emit(format!("tx u1 {} fm createfarm {} {} {} uusdc {} xl{}", funds_str(&funds), lp, cur + 1, cur + 1 + d as u64, aa, tag));
+        let k = 1 + self.r.below(3) as u128;
+        self.emit(format!("tx u1 1 uusdc {} fm expandfarm {} - - uusdc {} m-xl{}", rate * k, lp, rate * k, tag));
+        if self.r.chance(1, 2) { self.emit(format!("tx u1 1 uusdc {} fm expandfarm {} - - uusdc {} m-xl{}", rate, lp, rate, tag)); }
     }
 
     /// directed scenario for C05 / C11: every funding shape of a farm whose reward denom is the fee denom
@@ -781,7 +805,8 @@ pub fn gen_fm_case(r: &mut Rng, id: u64, len: u64, faults: bool, o: &mut Out) {
     for _ in 0..6 { g.op_provide(); }
     // every second case starts with one directed scenario, in rotation, whatever the seed
     if let Some(k) = scen {
-        match k % 7 {
+        match k % 8 {
+            7 => g.op_scenario_expand_long_farm(),
             0 => g.op_scenario_piecewise_close(),
             1 => g.op_scenario_shared_owner_emergency(),
             2 => g.op_scenario_double_autoclose(),
